@@ -168,3 +168,19 @@ def sweep(paths):
             os.unlink(p)
         except OSError:
             pass
+
+
+def name_family(rng, base, count):
+    """`count` distinct IPC names for one history.  Besides plain short names: names longer than any file-name limit that
+    differ only in their last characters (a key derived from a truncated name would merge them), one name being a prefix of
+    another, and names differing only in the first character or in letter case."""
+    shape = rng.choice(["short", "short", "long-tail", "prefix", "case"])
+    tags = "abc"[:count]
+    if shape == "long-tail":
+        pad = "x" * rng.choice([230, 256, 300, 700])
+        return [base + "-" + pad + c for c in tags], shape
+    if shape == "prefix":
+        return [base + "-n" + "n" * i for i in range(count)], shape
+    if shape == "case":
+        return [(c if i % 2 else c.upper()) + base + "-q" for i, c in enumerate(tags)] if count > 1 else [base + "-Q"], shape
+    return [base + "-" + c for c in tags], shape
